@@ -271,15 +271,14 @@ pub mod keys {
         Some((key.index, key.node.mode as u8, key.node.item))
     }
 
-    /// Encodes the scan prefix of an index, optionally restricted to one kind
+    /// Encodes the scan prefix of an index restricted to one kind
     /// (1 = updated, 2 = tree, 3 = item).
-    pub fn prefix(index: u16, kind: Option<u8>) -> Option<Vec<u8>> {
+    pub fn prefix(index: u16, kind: u8) -> Option<Vec<u8>> {
         let prefix = match kind {
-            None => Prefix::all(index),
-            Some(1) => Prefix::updated(index),
-            Some(2) => Prefix::tree(index),
-            Some(3) => Prefix::item(index),
-            Some(_) => return None,
+            1 => Prefix::updated(index),
+            2 => Prefix::tree(index),
+            3 => Prefix::item(index),
+            _ => return None,
         };
         PrefixCodec::bytes_encode(&prefix).ok().map(|b| b.into_owned())
     }
